@@ -5,6 +5,8 @@
 //   finv    M t n <n*n bits>                      Matrix3_/Matrix4_ inverse() and det() residuals
 //   fsolve  A t rows cols <bits> / b cols <bits>  Matrix_ solve / inverse / least squares residuals
 //   fscale  A t rows cols <bits> / b cols <bits> / k ka kb   the same systems with A scaled by 2^ka and b by 2^kb (whole exponent range)
+//   relrot  rr t a b c d ax ay az dn k mode ord fixed   relative rotation, computed in T, of the orientation (a,b,c,d)/|.| and the one
+//                                                 10^-dn rad (or 0, or k*pi/12) further about (ax,ay,az): conversions of the result
 //   quat    q t a b c d                           integer 4-vector, normalised by the harness: q -> M -> q, M -> axis-angle -> M
 //   axang   aa t ax ay az num den e               axis (integers), angle = pi*num/den + eps[e]: rotate() vs Rodrigues, round trips
 //   euler   e t ord fixed n0 d0 e0 n1 d1 e1 n2 d2 e2   three angles, one of the 12 axis orders, moving or fixed axes
@@ -724,6 +726,26 @@ static void run_axang(const vf::Op& o, const vf::Case& c)
 	bool zero_axis = axis.x == 0 && axis.y == 0 && axis.z == 0;
 	if (zero_axis)
 		axis = asl::Vec3_<T>(0, 0, 1);
+	// optional arguments 7, 8: the direction above rescaled to a length class (rotate() must accept an axis of any length):
+	//   0 unit length, rounded to T             1 normalised in float, then converted to T ("unit" up to float rounding)
+	//   2 length 1 +- 10^-k, k = 3..7           3 length 10^-3 .. 2*10^3            4 normalised in T arithmetic
+	int lc = o.a.size() > 7 ? (int)(((o.i(7) % 5) + 5) % 5) : -1;
+	if (lc >= 0) {
+		long long lp = o.i(8) < 0 ? -o.i(8) : o.i(8);
+		ld n = std::sqrt((ld)axis.x * axis.x + (ld)axis.y * axis.y + (ld)axis.z * axis.z), ux = axis.x / n, uy = axis.y / n, uz = axis.z / n, L = 1;
+		if (lc == 2)
+			L = 1 + ((lp & 1) ? -1 : 1) * std::pow(10.0L, -(ld)(3 + (lp / 2) % 5));
+		else if (lc == 3)
+			L = std::pow(10.0L, (ld)((lp % 7) - 3)) * (1 + (ld)((lp / 7) % 5) / 4);
+		if (lc == 1)
+			axis = asl::Vec3_<T>((T)(float)ux, (T)(float)uy, (T)(float)uz);
+		else if (lc == 4) {
+			T m = std::sqrt(axis.x * axis.x + axis.y * axis.y + axis.z * axis.z);
+			axis = asl::Vec3_<T>(axis.x / m, axis.y / m, axis.z / m);
+		}
+		else
+			axis = asl::Vec3_<T>((T)(ux * L), (T)(uy * L), (T)(uz * L));
+	}
 	auto ctx = lazy([&] { return vf::str("axis=(", axis.x, ",", axis.y, ",", axis.z, ") angle=", angle, " ", Tol<T>::name()); });
 	LM R = rodrigues(axis.x, axis.y, axis.z, angle);
 	asl::Matrix4_<T> M = asl::Matrix4_<T>::rotate(axis, angle);
@@ -733,6 +755,47 @@ static void run_axang(const vf::Op& o, const vf::Case& c)
 	worst(W_ALG, e0, Tol<T>::alg());
 	ld e1 = diff(asl::Quaternion_<T>::fromAxisAngle(axis, angle).matrix(), R);
 	VF_CHECK(e1 <= Tol<T>::alg(), "fromAxisAngle(axis, angle).matrix() differs from Rodrigues' formula by ", (double)e1, " for ", ctx);
+	{
+		// the result is a rotation (orthonormal, det 1), keeps the axis fixed, and does not depend on the length of the axis; the
+		// constants follow from |M - R| <= ALG element-wise: |M^T M - I| <= 6 ALG, |det M - 1| <= 9 ALG, |M u - u| <= 3 ALG
+		ld n = std::sqrt((ld)axis.x * axis.x + (ld)axis.y * axis.y + (ld)axis.z * axis.z), u[3] = {axis.x / n, axis.y / n, axis.z / n};
+		LM Ml(3, 3);
+		for (int i = 0; i < 3; i++)
+			for (int j = 0; j < 3; j++)
+				Ml(i, j) = M(i, j);
+		ld eo = ref::maxabs(Ml.t() * Ml - LM::identity(3)), ed = std::fabs(ref::det(Ml) - 1), ef = 0;
+		for (int i = 0; i < 3; i++)
+			ef = std::max(ef, std::fabs(Ml(i, 0) * u[0] + Ml(i, 1) * u[1] + Ml(i, 2) * u[2] - u[i]));
+		VF_CHECK(eo <= 6 * Tol<T>::alg(), "Matrix4::rotate(axis, angle) is not orthonormal: |M^T M - I| = ", (double)eo, " > ", (double)(6 * Tol<T>::alg()), " for ", ctx, " (|axis| = ",
+		         (double)n, ")");
+		VF_CHECK(ed <= 9 * Tol<T>::alg(), "det of Matrix4::rotate(axis, angle) = 1 + ", (double)(ref::det(Ml) - 1), " for ", ctx, " (|axis| = ", (double)n, ")");
+		VF_CHECK(ef <= 3 * Tol<T>::alg(), "Matrix4::rotate(axis, angle) moves its own axis by ", (double)ef, " for ", ctx, " (|axis| = ", (double)n, ")");
+		const T sc[3] = {(T)2, (T)0.5, (T)(1 / n)};
+		for (T f : sc) {
+			asl::Vec3_<T> a2(axis.x * f, axis.y * f, axis.z * f);
+			// the rescaled axis is rounded to T again: its direction moves by <= eps, the matrix by <= 2 eps
+			ld es = diff(asl::Matrix4_<T>::rotate(a2, angle), rodrigues(a2.x, a2.y, a2.z, angle));
+			VF_CHECK(es <= Tol<T>::alg(), "Matrix4::rotate(", (double)f, " * axis, angle) differs from Rodrigues' formula by ", (double)es, " for ", ctx);
+			ld e2 = 0;
+			asl::Matrix4_<T> M2 = asl::Matrix4_<T>::rotate(a2, angle);
+			for (int i = 0; i < 3; i++)
+				for (int j = 0; j < 3; j++)
+					e2 = std::max(e2, std::fabs((ld)M2(i, j) - (ld)M(i, j)));
+			VF_CHECK(e2 <= 3 * Tol<T>::alg(), "Matrix4::rotate(s * axis, angle) differs from rotate(axis, angle) by ", (double)e2, " for s=", (double)f, " ", ctx);
+		}
+		if (lc >= 0) {
+			// the axis itself as a rotation vector (angle = its length: 1 rad up to the class's deviation, or 1e-3 .. 2e3 rad)
+			LM Rv = rodrigues(axis.x, axis.y, axis.z, n);
+			ld tolv = Tol<T>::alg() * (1 + n);
+			ld ev = diff(asl::Matrix4_<T>::rotate(axis), Rv);
+			VF_CHECK(ev <= tolv, "Matrix4::rotate(rotation vector) differs from Rodrigues' formula by ", (double)ev, " > ", (double)tolv, " for v=(", axis.x, ",", axis.y, ",", axis.z,
+			         ") |v| = ", (double)n, " ", Tol<T>::name());
+			ld eq = diff(asl::Quaternion_<T>::fromAxisAngle(axis).matrix(), Rv);
+			VF_CHECK(eq <= tolv, "fromAxisAngle(rotation vector).matrix() differs from Rodrigues' formula by ", (double)eq, " for v=(", axis.x, ",", axis.y, ",", axis.z, ")");
+			static const char* lname[] = {"unit", "unit-up-to-float-rounding", "1+-1e-3..1e-7", "1e-3..2e3", "normalised-in-T"};
+			cls(std::string("axang.") + Tol<T>::name() + ".axis-length " + lname[lc]);
+		}
+	}
 	// rotation vector: the axis scaled to length |angle| in T (sign of the angle folded into the direction)
 	{
 		ld n = std::sqrt((ld)axis.x * axis.x + (ld)axis.y * axis.y + (ld)axis.z * axis.z);
@@ -914,6 +977,113 @@ static void run_eulerm(const vf::Op& o, const vf::Case& c)
 		nontrivial(c);
 }
 
+// Rotations obtained by computing with rotations in T: the relative rotation of two orientations that are dn apart
+// (q2 ^ q1.conj(), q2 ^ q1.inverse(), (M2 * M1^T).rotation(), q1.conj() ^ q2).  The result is a unit quaternion only up to
+// rounding (w may exceed 1 by an ulp while the vector part is not zero); domain: | |q| - 1 | <= 4 eps.  It must convert to
+// a matrix, an axis-angle vector and Euler angles and back to the same rotation like any other unit quaternion.
+template <class T>
+static void run_relrot(const vf::Op& o, const vf::Case& c)
+{
+	Q q1l = unit_quat(o, 1);
+	ld ax = (ld)(o.i(5) % 1000), ay = (ld)(o.i(6) % 1000), az = (ld)(o.i(7) % 1000), an = std::sqrt(ax * ax + ay * ay + az * az);
+	if (an == 0) {
+		az = 1;
+		an = 1;
+	}
+	int dn = (int)(((o.i(8) % 15) + 15) % 15);
+	// 0: the same orientation; 1..12: 10^-dn rad apart; 13: a multiple of pi/12 apart; 14: 3e-8 * k rad apart
+	ld delta = dn == 0 ? 0 : dn <= 12 ? std::pow(10.0L, -(ld)dn) : dn == 13 ? PIL * (ld)(o.i(9) % 24) / 12 : 3e-8L * (ld)(1 + (o.i(9) % 100 + 100) % 100);
+	Q qd{std::cos(delta / 2), std::sin(delta / 2) * ax / an, std::sin(delta / 2) * ay / an, std::sin(delta / 2) * az / an};
+	Q q2l = qmul(qd, q1l);
+	asl::Quaternion_<T> q1((T)q1l.w, (T)q1l.x, (T)q1l.y, (T)q1l.z), q2((T)q2l.w, (T)q2l.x, (T)q2l.y, (T)q2l.z);
+	LM R1 = rot_of_quat(Q{q1.w, q1.x, q1.y, q1.z}), R2 = rot_of_quat(Q{q2.w, q2.x, q2.y, q2.z});
+	int mode = (int)(((o.i(10) % 4) + 4) % 4);
+	asl::Quaternion_<T> qr;
+	asl::Matrix4_<T> Mr;
+	LM Rexp = mode == 3 ? R1.t() * R2 : R2 * R1.t();
+	if (mode == 0)
+		qr = q2 ^ q1.conj();
+	else if (mode == 1)
+		qr = q2 ^ q1.inverse();
+	else if (mode == 2) {
+		Mr = q2.matrix() * q1.matrix().transposed();
+		qr = Mr.rotation();
+	}
+	else
+		qr = q1.conj() ^ q2;
+	static const char* mname[] = {"q2 ^ q1.conj()", "q2 ^ q1.inverse()", "(M2 * M1^T).rotation()", "q1.conj() ^ q2"};
+	auto ctx = lazy([&] {
+		return vf::str(mname[mode], " = (", qr.w, ",", qr.x, ",", qr.y, ",", qr.z, ") with q1=(", q1.w, ",", q1.x, ",", q1.y, ",", q1.z, ") q2=(", q2.w, ",", q2.x, ",", q2.y, ",", q2.z,
+		               ") ", Tol<T>::name());
+	});
+	VF_CHECK(qr.w == qr.w && qr.x == qr.x && qr.y == qr.y && qr.z == qr.z, "NaN in ", ctx);
+	ld nq = std::sqrt((ld)qr.w * qr.w + (ld)qr.x * qr.x + (ld)qr.y * qr.y + (ld)qr.z * qr.z);
+	if (!(std::fabs(nq - 1) <= 4 * Tol<T>::eps())) {
+		cls("relrot.norm-off-by-more-than-4-eps(skipped)");
+		if (g_collect)
+			vf::stats().discarded++;
+		return;
+	}
+	LM R = rot_of_quat(Q{qr.w, qr.x, qr.y, qr.z}); // the rotation qr stands for (normalised)
+	ld ep = ref::maxabs(R - Rexp);
+	VF_CHECK(ep <= Tol<T>::comp(), "the rotation of ", ctx, " differs from R2 R1^T (resp. R1^T R2) by ", (double)ep, " > ", (double)Tol<T>::comp());
+	worst(W_COMP, ep, Tol<T>::comp());
+	// quaternion -> matrix
+	asl::Matrix4_<T> M = qr.matrix();
+	ld e0 = diff(M, R);
+	VF_CHECK(e0 <= Tol<T>::alg(), "Quaternion::matrix() differs from the rotation v -> q v q* by ", (double)e0, " > ", (double)Tol<T>::alg(), " for ", ctx);
+	worst(W_ALG, e0, Tol<T>::alg());
+	// quaternion -> angle / rotation vector -> matrix
+	T ang = qr.angle();
+	VF_CHECK(ang == ang, "Quaternion::angle() = ", ang, " for ", ctx);
+	asl::Vec3_<T> v = qr.axisAngle();
+	VF_CHECK(v.x == v.x && v.y == v.y && v.z == v.z, "Quaternion::axisAngle() = (", v.x, ",", v.y, ",", v.z, ") for ", ctx);
+	ld e1 = diff(asl::Matrix4_<T>::rotate(v), R);
+	VF_CHECK(e1 <= Tol<T>::deg(), "rotate(q.axisAngle()) differs from the rotation of q by ", (double)e1, " > ", (double)Tol<T>::deg(), " for ", ctx, " axisAngle=(", v.x, ",", v.y, ",", v.z,
+	         ")");
+	worst(W_DEG_AA, e1, Tol<T>::deg());
+	ld e2 = diff(asl::Quaternion_<T>::fromAxisAngle(v).matrix(), R);
+	VF_CHECK(e2 <= Tol<T>::deg(), "fromAxisAngle(q.axisAngle()).matrix() differs from the rotation of q by ", (double)e2, " for ", ctx);
+	// matrix -> quaternion / rotation vector -> matrix, with the matrices the library produced
+	check_from_matrix<T>(M, R, ctx);
+	LM Ml(3, 3), P;
+	for (int i = 0; i < 9; i++)
+		Ml.a[i] = (ld)M(i / 3, i % 3);
+	bool euler_ok = polar(Ml, P) && ref::maxabs(Ml - P) <= 3 * Tol<T>::eps();
+	if (mode == 2) {
+		LM Mrl(3, 3), Pr;
+		for (int i = 0; i < 9; i++)
+			Mrl.a[i] = (ld)Mr(i / 3, i % 3);
+		if (polar(Mrl, Pr) && ref::maxabs(Mrl - Pr) <= 3 * Tol<T>::eps()) {
+			check_from_matrix<T>(Mr, Pr, ctx);
+			asl::Vec3_<T> vm = Mr.axisAngle();
+			VF_CHECK(vm.x == vm.x && vm.y == vm.y && vm.z == vm.z, "Matrix4::axisAngle() is NaN for M2 * M1^T, ", ctx);
+		}
+	}
+	// matrix -> Euler angles -> matrix (same domain as part eulerm: every element within 3 eps of the nearest rotation)
+	if (euler_ok) {
+		int ord = (int)(((o.i(11) % 12) + 12) % 12);
+		std::string so = ORDERS[ord];
+		if (o.i(12) & 1)
+			so += "*";
+		asl::Vec3_<T> back = M.eulerAngles(so.c_str());
+		VF_CHECK(back.x == back.x && back.y == back.y && back.z == back.z, "eulerAngles(\"", so, "\") is NaN for the matrix of ", ctx);
+		ld e3 = diff(asl::Matrix4_<T>::rotateE(back, so.c_str()), P);
+		VF_CHECK(e3 <= Tol<T>::deg(), "rotateE(M.eulerAngles(\"", so, "\"), \"", so, "\") differs from M by ", (double)e3, " > ", (double)Tol<T>::deg(), " for the matrix of ", ctx);
+		worst(W_DEG_EULER, e3, Tol<T>::deg());
+	}
+	if (g_collect) {
+		std::string pre = std::string("relrot.") + Tol<T>::name();
+		ld aw = std::fabs((ld)qr.w);
+		bool vz = qr.x == 0 && qr.y == 0 && qr.z == 0;
+		cls(pre + (aw > 1 ? (vz ? ".|w|>1,zero-vector-part" : ".|w|>1-by-rounding,non-zero-vector-part") : aw == 1 ? (vz ? ".|w|==1,zero-vector-part" : ".|w|==1,non-zero-vector-part") : ".|w|<1"));
+		cls(std::string("relrot.") + (dn == 0 ? "same-orientation" : dn <= 3 ? "1e-1..1e-3-apart" : dn <= 8 ? "1e-4..1e-8-apart" : dn <= 12 ? "1e-9..1e-12-apart" : dn == 13 ? "multiple-of-pi/12-apart" : "3e-8..3e-6-apart"));
+		cls(std::string("relrot.via ") + mname[mode]);
+		if (aw >= 1 || degeneracy(R) < 1e-3L)
+			nontrivial(c);
+	}
+}
+
 void vf_run_case(const std::string& part, const vf::Case& c)
 {
 	const vf::Op *first = 0, *ob = 0;
@@ -942,6 +1112,8 @@ void vf_run_case(const std::string& part, const vf::Case& c)
 	}
 	else if (part == "quat" && o.name == "q")
 		dbl ? run_quat<double>(o, c) : run_quat<float>(o, c);
+	else if (part == "relrot" && o.name == "rr")
+		dbl ? run_relrot<double>(o, c) : run_relrot<float>(o, c);
 	else if (part == "axang" && o.name == "aa")
 		dbl ? run_axang<double>(o, c) : run_axang<float>(o, c);
 	else if (part == "euler" && o.name == "e")
@@ -1227,6 +1399,23 @@ static vf::Case gen_quat_case(bool dbl, int style, uint64_t seed)
 	return quat_case(dbl, v[0], v[1], v[2], v[3]);
 }
 
+static vf::Case gen_relrot_case(bool dbl, int style, uint64_t seed, int dn, int mode, int ord, bool fixed)
+{
+	vf::Case q = gen_quat_case(dbl, style, seed); // the first orientation: same styles as part quat
+	SplitMix g(seed ^ 0x7e1a7e1a7e1aULL);
+	vf::Op o("rr", {dbl ? 1 : 0, q.ops[0].i(1), q.ops[0].i(2), q.ops[0].i(3), q.ops[0].i(4)});
+	for (int i = 0; i < 3; i++)
+		o.a.push_back(g.below(3) == 0 ? 0 : (long long)g.below(1999) - 999); // axis of the small rotation between the two
+	o.a.push_back(dn);
+	o.a.push_back((long long)g.below(100));
+	o.a.push_back(mode);
+	o.a.push_back(ord);
+	o.a.push_back(fixed ? 1 : 0);
+	vf::Case c;
+	c.add(o);
+	return c;
+}
+
 static vf::Case euler_case(bool dbl, int ord, bool fixed, const long long (&a)[9])
 {
 	vf::Op o("e", {dbl ? 1 : 0, ord, fixed ? 1 : 0});
@@ -1373,25 +1562,47 @@ void vf_search(const vf::Args& a)
 		sweep(a, "quat", a.n(0, 200000), [](SplitMix& r) { return gen_quat_case(r.below(2), (int)r.below(6), r.next()); });
 	}();
 	[&]() {
+		// relative rotations of two nearby (or equal, or unrelated) orientations, computed in T by the library
+		auto g = gen::map(gen::tuple(boolean, vf::irange<int>(0, 5), seed64, vf::irange<int>(0, 14), vf::irange<int>(0, 3), vf::irange<int>(0, 11), boolean),
+		                  [](const std::tuple<int, int, uint64_t, int, int, int, int>& t) {
+			                  return gen_relrot_case(std::get<0>(t), std::get<1>(t), std::get<2>(t), std::get<3>(t), std::get<4>(t), std::get<5>(t), std::get<6>(t));
+		                  });
+		if (!vf::check_cases("relrot", a.n(12000, 60000), 100, g))
+			return;
+		sweep(a, "relrot", a.n(0, 200000),
+		      [](SplitMix& r) { return gen_relrot_case(r.below(2), (int)r.below(6), r.next(), (int)r.below(15), (int)r.below(4), (int)r.below(12), r.below(2)); });
+	}();
+	[&]() {
 		// random axis / angle incl. offsets from the eps table around multiples of pi/12
 		auto g = gen::map(gen::tuple(boolean, gen::container<std::vector<int>>(3, gen::oneOf(vf::irange<int>(-3, 3), vf::irange<int>(-1000000, 1000000))),
 		                             gen::oneOf(gen::pair(vf::irange<int>(-48, 48), gen::just(12)), gen::pair(vf::irange<int>(-4000000, 4000000), gen::just(1000000))),
-		                             vf::irange<int>(0, EPS_N - 1)),
-		                  [](const std::tuple<int, std::vector<int>, std::pair<int, int>, int>& t) {
+		                             vf::irange<int>(0, EPS_N - 1), gen::pair(vf::irange<int>(-2, 4), vf::irange<int>(0, 69))),
+		                  [](const std::tuple<int, std::vector<int>, std::pair<int, int>, int, std::pair<int, int>>& t) {
 			                  const auto& ax = std::get<1>(t);
 			                  vf::Case c;
-			                  c.add(vf::Op("aa", {std::get<0>(t), ax[0], ax[1], ax[2], std::get<2>(t).first, std::get<2>(t).second, std::get<3>(t)}));
+			                  vf::Op o("aa", {std::get<0>(t), ax[0], ax[1], ax[2], std::get<2>(t).first, std::get<2>(t).second, std::get<3>(t)});
+			                  if (std::get<4>(t).first >= 0) { // 5 of 7: the direction rescaled to a length class
+				                  o.a.push_back(std::get<4>(t).first);
+				                  o.a.push_back(std::get<4>(t).second);
+			                  }
+			                  c.add(o);
 			                  return c;
 		                  });
-		if (!vf::check_cases("axang", a.n(15000, 40000), 100, g))
+		if (!vf::check_cases("axang", a.n(12000, 40000), 100, g))
 			return;
 		sweep(a, "axang", a.n(0, 150000), [](SplitMix& r) {
 			vf::Case c;
 			auto comp = [&]() -> long long { return r.below(2) ? (long long)r.below(7) - 3 : (long long)r.below(2000001) - 1000000; };
 			long long x = comp(), y = comp(), z = comp();
 			bool coarse = r.below(2);
-			c.add(vf::Op("aa", {(long long)r.below(2), x, y, z, coarse ? (long long)r.below(97) - 48 : (long long)r.below(8000001) - 4000000, coarse ? 12 : 1000000,
-			                    (long long)r.below(EPS_N)}));
+			vf::Op o("aa", {(long long)r.below(2), x, y, z, coarse ? (long long)r.below(97) - 48 : (long long)r.below(8000001) - 4000000, coarse ? 12 : 1000000,
+			                (long long)r.below(EPS_N)});
+			int lc = (int)r.below(7) - 2;
+			if (lc >= 0) {
+				o.a.push_back(lc);
+				o.a.push_back((long long)r.below(70));
+			}
+			c.add(o);
 			return c;
 		});
 	}();
